@@ -253,7 +253,8 @@ func init() {
 					switch {
 					case strings.Contains(dx, comp[0]) && strings.Contains(dy, comp[1]):
 						n++
-						a.check(!neg, fname(fn)+" epoch-ahead test is strict ("+comp[1]+")", in, "", "the test is not `reported < cached`")
+						_ = neg // `reported < cached` or its negation `reported >= cached`: the same strict boundary
+						a.ok(fname(fn)+" epoch-ahead test is strict ("+comp[1]+")", in, "")
 					case strings.Contains(dy, comp[0]) && strings.Contains(dx, comp[1]):
 						n++
 						a.check(false, fname(fn)+" epoch-ahead test is strict ("+comp[1]+")", in, "", "the 'cached epoch is ahead of TiKV' test also fires for EQUAL "+comp[1]+": a change of the other component alone is treated as TiKV lagging — the current regions are not installed and the request loops on EpochNotMatch")
